@@ -971,7 +971,7 @@ class FT:
             if base == 'memcpy' and m and int(m.group(1)) % 8 == 0 and 0 < int(m.group(1)) <= 128:
                 n = int(m.group(1)) // 8
                 return ['{ P *d__ = (P*)%s; P *s__ = (P*)%s; %s }' % (a[0], a[1], ' '.join('d__[%d] = s__[%d];' % (k, k) for k in range(n)))]
-            if base == 'memset' and m and int(m.group(1)) % 8 == 0 and 0 < int(m.group(1)) <= 256 and a[1] == '((uint8_t)0ULL)':
+            if False and base == 'memset' and m and int(m.group(1)) % 8 == 0 and 0 < int(m.group(1)) <= 256 and a[1] == '((uint8_t)0ULL)':
                 n = int(m.group(1)) // 8
                 return ['{ P *d__ = (P*)%s; %s }' % (a[0], ' '.join('d__[%d] = (P)0;' % k for k in range(n)))]
             return ['%s(%s, %s, (size_t)%s);' % (base, a[0], a[1], a[2])]
